@@ -19,12 +19,12 @@ static const char *const fault_names[] = { "counter_jump", "alloc_fail", "sink_s
 					   "sink_error", "really_logged_2^31_messages", NULL };
 enum { P_FOLD_CROSSED, P_WRAPPED_256, P_NICE_REFUSED, P_NICE_ACCEPTED, P_NEG_INDEX, P_INDEX_PAST,
        P_CLEAR_AFTER_WRAP, P_EXACT_256, P_DUMP_FULL, P_SHORTCUT_VALIDATED, P_SHORTCUT_MISMATCH,
-       P_COUNTER_NOT_FOUND };
+       P_COUNTER_NOT_FOUND, P_JUMP_NOT_NEUTRAL };
 static const char *const probe_names[] = {
 	"counter_fold_crossed", "ring_wrapped", "nice_refused", "nice_accepted", "negative_index",
 	"index_at_or_past_count", "clear_after_wrap", "exactly_256_messages", "dump_of_full_ring",
 	"jump_shortcut_equals_brute_force_state", "jump_shortcut_differs_from_brute_force_state",
-	"counter_word_not_located", NULL };
+	"counter_word_not_located", "jump_undone_because_it_changed_the_visible_lines", NULL };
 
 static const char *const fmts[] = {
 	"plain message\n",
@@ -66,6 +66,16 @@ static void tick(void)
 static void init(void)
 {
 	counter = sim_lib_find_counter(tick);
+	if (counter) {
+		/* a word that went up by one per message three times is not yet "the message count":
+		 * it must still equal the count after a thousand messages (a slot index with a
+		 * "wrapped" flag above it, say, would not) */
+		for (int i = 0; i < 1000; i++)
+			tick();
+		if (*counter != 1000)
+			counter = NULL;
+		sim_lib_restart();
+	}
 }
 
 static void fmt_entry(char *out, size_t sz, const ent_t *e)
@@ -224,7 +234,30 @@ static void jump_counter(void)
 	t = (t & ~255u) | (*counter & 255u);
 	if (t >= 0x7fffffffu)
 		t -= 256;
+	/* the jump claims to be a state the library could have reached by itself, so at the moment
+	 * it is made it must be invisible: the same lines before and after.  If it is not, the
+	 * located word is not what the shortcut assumes; the jump is undone and not used. */
+	static const int probe_at[] = { 0, 1, 128, 254, 255, 256 };
+	char *before[6], *after[6];
+	uint32_t old = *counter;
+	for (int i = 0; i < 6; i++)
+		before[i] = mlog_get_line(probe_at[i]);
 	*counter = t;
+	bool neutral = true;
+	for (int i = 0; i < 6; i++) {
+		after[i] = mlog_get_line(probe_at[i]);
+		if (!before[i] != !after[i] || (before[i] && strcmp(before[i], after[i])))
+			neutral = false;
+	}
+	for (int i = 0; i < 6; i++) {
+		free(before[i]);
+		free(after[i]);
+	}
+	if (!neutral) {
+		*counter = old;
+		sim_probe(P_JUMP_NOT_NEUTRAL);
+		return;
+	}
 	n_since_clear = t;
 	sim_fault(F_COUNTER_JUMP);
 	sim_ev("jump", t, 0, 0);
